@@ -33,4 +33,14 @@ def blocksKeeping (cs : List Nat) (d : Nat) (x : Rat) : List Nat :=
 def reportGlobal (cs : List Nat) (d : Nat) (j : Nat) (l : Rat) (scale : Rat) : Rat :=
   Gen.pickGlobal l (chunkStart cs j : Int) (d : Int) scale
 
+/-- kernel radius of scipy's `gaussian_filter1d` (`lw = int(truncate * sd + 0.5)`, `truncate = 4.0`), which
+`ndi.gaussian_filter` and `ndi.gaussian_laplace` apply along every axis. scipy is not translated: this
+definition is part of the trusted base. -/
+def scipyGaussRadius (sigma : Rat) : Int := Py.floor (4 * sigma + 1 / 2)
+
+/-- `F` (a filter or a per-voxel decision along one axis) computes its value at `q` from the input values
+within `R` voxels of `q`. -/
+def LocalOp {α β : Type} (R : Int) (F : (Int → α) → Int → β) : Prop :=
+  ∀ f g q, (∀ p, q - R ≤ p → p ≤ q + R → f p = g p) → F f q = F g q
+
 end Model
